@@ -252,6 +252,10 @@ def gen_ops(rng, tier, focus, ref, tgt, info, n_res):
     kinds = list(weights)
     ops = []
     n_calls = 0
+    cur_ref = ref          # the reference as the generator sees it (its bond list grows when the history edits the topology)
+    rebond_at = None
+    if focus in ("C03", "C04") and info["geometry"] == "generic" and n >= 4 and rng.random() < 0.15:
+        rebond_at = rng.randint(1, max(1, nops - 2))
     if focus in ("C04", "C01") and rng.random() < (0.3 if focus == "C04" else 0.1):
         # the construction molecules change (and arguments are rejected) BEFORE the map is used for the first time
         for _ in range(rng.randint(0, 2)):
@@ -261,7 +265,20 @@ def gen_ops(rng, tier, focus, ref, tgt, info, n_res):
             ops.append({"op": "mutate", "what": what, "how": rng.choice(["move", "rotate", "overwrite"]),
                         "d": gen.rvec(rng, 3.0), "R": gen.random_rotation(rng).tolist(), "pick": rng.randrange(1000),
                         "seed": rng.randrange(2 ** 31)})
-    for _ in range(nops):
+    for step in range(nops):
+        if rebond_at is not None and step == rebond_at:
+            # the topology is EDITED (a bond is added between two atoms that already answered neighbour queries for the map
+            # in use) and a new map is built on it: frames must follow the topology as it is now
+            es = {tuple(sorted(e)) for e in cur_ref["edges"]}
+            pairs = [(i, j) for i in range(n) for j in range(i + 1, n) if (i, j) not in es]
+            rng.shuffle(pairs)
+            for (i, j) in pairs[:20]:
+                trial = [list(e) for e in cur_ref["edges"]] + [[i, j]]
+                if _anchors_generic(ref["positions"], trial, n, 2e-3):
+                    ops.append({"op": "rebond", "i": i, "j": j})
+                    cur_ref = dict(ref, edges=trial)
+                    break
+        ref_g = cur_ref
         k = rng.choices(kinds, weights=[weights[x] for x in kinds])[0]
         if k == "construction":
             ops.append({"op": "call", "conf": "construction"})
@@ -272,7 +289,7 @@ def gen_ops(rng, tier, focus, ref, tgt, info, n_res):
             ops.append(op)
             n_calls += 1
         elif k == "deformed":
-            new = deformation(rng, ref)
+            new = deformation(rng, ref_g)
             if new is None:
                 continue
             op = {"op": "call", "conf": "deformed", "positions": new}
@@ -283,7 +300,7 @@ def gen_ops(rng, tier, focus, ref, tgt, info, n_res):
         elif k == "one_moved":
             if n < 3:
                 continue
-            base = deformation(rng, ref, amp=rng.choice([0.0, 0.05]))
+            base = deformation(rng, ref_g, amp=rng.choice([0.0, 0.05]))
             if base is None:
                 continue
             ops.append({"op": "call", "conf": "deformed", "positions": base, "tag": "locality-base"})
@@ -295,12 +312,12 @@ def gen_ops(rng, tier, focus, ref, tgt, info, n_res):
                     d = np.array(gen.unit_vec(rng)) * rng.uniform(0.01, 0.3)
                     new = np.array(base)
                     new[kk] = new[kk] + d
-                    if _well_separated(new) and _anchors_generic(new, ref["edges"], n, 2e-3):
+                    if _well_separated(new) and _anchors_generic(new, ref_g["edges"], n, 2e-3):
                         ops.append({"op": "call", "conf": "one_moved", "k": kk, "base": base, "positions": new.tolist()})
                         n_calls += 1
                         break
         elif k == "other":
-            new = deformation(rng, ref, amp=0.0)
+            new = deformation(rng, ref_g, amp=0.0)
             op = {"op": "call", "conf": "other_instance", "positions": new or ref["positions"],
                   "gro_resids": [rng.choice([1, 17, 4242]) + r for r in range(n_res)],
                   "velocities": rng.random() < 0.3}
@@ -318,6 +335,12 @@ def gen_ops(rng, tier, focus, ref, tgt, info, n_res):
         elif k == "reject":
             ops.append({"op": "reject", "kind": rng.choice(["name", "atom_name", "extra_atom", "none", "residue", "array", "str",
                                                             "moleculetop"])})
+            if rng.random() < 0.4:
+                # the SAME wrong object (or a copy of it, which shares its topology) is offered again, possibly with other
+                # rejected things in between: a rejection must not depend on what was offered before
+                if rng.random() < 0.4:
+                    ops.append({"op": "reject", "kind": rng.choice(["none", "array", "str"])})
+                ops.append({"op": "reject_again", "pick": rng.randrange(1000), "copy": rng.random() < 0.5})
         elif k == "mutate":
             what = rng.choice(["construction_ref", "construction_tgt", "result", "argument"])
             op = {"op": "mutate", "what": what, "how": rng.choice(["move", "rotate", "overwrite"]),
@@ -608,6 +631,7 @@ def _execute(trace, ctx, ref_spec, tgt_spec, scale, n, m, ref_pos0, tgt_pos0):
     snap_ref_live = snap(ref_live)
     snap_tgt_live = snap(tgt_live)
     pending_reject = False
+    rejected_objects = []
     collinear_constr = (not small) and any(model.anchor_sin(a) < 1e-9 for a in model.anchors)
     if collinear_constr:
         ctx.probe("collinear_reference")
@@ -866,6 +890,7 @@ def _execute(trace, ctx, ref_spec, tgt_spec, scale, n, m, ref_pos0, tgt_pos0):
                 do_call(src, i)
         elif kind == "reject":
             bad = make_rejected(op["kind"], ref_spec, ref_pos0)
+            rejected_objects.append(bad)
             try:
                 themap(bad)
             except TypeError:
@@ -880,6 +905,54 @@ def _execute(trace, ctx, ref_spec, tgt_spec, scale, n, m, ref_pos0, tgt_pos0):
             else:
                 ctx.op("reject:" + op["kind"], "accepted")
                 ctx.violate(P4, "reject-accepted", f"argument of kind '{op['kind']}' was accepted", key=op["kind"])
+        elif kind == "rebond":
+            bi, bj = op["i"], op["j"]
+            if small or any(sorted(e) == sorted((bi, bj)) for e in ref_spec["edges"]):
+                continue
+            shared_top.atoms[bi].connect(shared_top.atoms[bj])
+            ref_spec = dict(ref_spec, edges=[list(e) for e in ref_spec["edges"]] + [[bi, bj]])
+            ref_live = ref_instance(ref_spec["positions"])
+            tgt_live = gen.make_molecule(tgt_spec)
+            try:
+                themap = ExchangeMap(ref_live, tgt_live, scale)
+            except Exception as e:
+                ctx.violate("C01", "construction-raised", f"ExchangeMap on the edited topology raised {type(e).__name__}: {e}")
+                return
+            model = XMapModel(ref_pos0, [tuple(e) for e in ref_spec["edges"]], tgt_pos0, scale)
+            assignment = None
+            assignment_read[0] = False
+            if trace.get("eq_early", True):
+                read_assignment()
+            base_map = fresh_map()
+            base_result = np.array(base_map(ref_instance(ref_spec["positions"], own_top=True)).atoms_positions)
+            results.clear()
+            calls_by_op.clear()
+            snap_ref_live = snap(ref_live)
+            snap_tgt_live = snap(tgt_live)
+            ctx.op("rebond", "new-map")
+            ctx.probe("topology_edited_then_new_map")
+        elif kind == "reject_again":
+            mols = [b for b in rejected_objects if hasattr(b, "copy") and hasattr(b, "atoms_positions")]
+            if not mols:
+                continue
+            bad = mols[op["pick"] % len(mols)]
+            if op.get("copy"):
+                bad = bad.copy()
+            try:
+                themap(bad)
+            except TypeError:
+                ctx.op("reject_again", "TypeError")
+                ctx.fault("rejected_argument_offered_again")
+                pending_reject = True
+            except Exception as e:
+                ctx.op("reject_again", type(e).__name__)
+                ctx.violate(P4, "reject-wrong-exception", f"a molecule of another species offered a second time raised "
+                                                          f"{type(e).__name__} instead of TypeError: {e}", key="again")
+                pending_reject = True
+            else:
+                ctx.op("reject_again", "accepted")
+                ctx.violate(P4, "reject-accepted", "a molecule of another species was rejected the first time and ACCEPTED when "
+                                                   "offered again", key="again")
         elif kind == "mutate":
             import random as _r
             mr = _r.Random(op["seed"])
